@@ -32,7 +32,12 @@ RULE = ("graphs over every node kind (pvf/zoo.py).  For each graph g: the "
         "that component changed must differ; per shard, child interpreters "
         "with other PYTHONHASHSEEDs recompute the keys of graphs rebuilt from "
         "JSON and of graphs unpickled from the parent: all must be identical."
-        "  non-trivial = a component below the root was changed or the key "
+        "  Layouts: a wrapper whose data is replaced by an F-ordered copy or "
+        "a strided view with equal contents keeps its key; the same memory "
+        "read in F order (other contents) changes it.  History: a node keyed "
+        "first and tagged afterwards gets the key of an equal, never keyed "
+        "node tagged alike, and its old key again once the tag is removed.  "
+        "non-trivial = a component below the root was changed or the key "
         "crossed a process; distinct by (program, node, field)")
 ASSUMPTIONS = [
     "creation-traceback tagging at its default (off)",
@@ -157,6 +162,76 @@ def case_oracle(case):
                     f = changed_key(n, n2, f"DataWrapper.data[{label}]")
                     if f:
                         return f, info
+        # ---- layouts: the key follows the logical contents, not the memory
+        for n in nodes:
+            if isinstance(n, pt.array.DataWrapper) and isinstance(
+                    n.data, np.ndarray) and n.data.ndim >= 2 \
+                    and n.data.size >= 2:
+                arr = n.data
+                same = [("F-ordered copy", np.asfortranarray(arr)),
+                        ("strided view", np.repeat(arr, 2, axis=-1)[..., ::2])]
+                for label, data in same:
+                    assert np.array_equal(data, arr, equal_nan=True)
+                    a2 = reflect.rebuild(a, {id(n): dataclasses.replace(
+                        n, data=data)})
+                    info["data_variants"] += 1
+                    if key_of(a2) != ka:
+                        return Failure("equal-data-other-key",
+                                       f"DataWrapper.data as {label} (equal "
+                                       "contents, another memory layout): key "
+                                       "differs", "layout"), info
+                y = np.reshape(np.ascontiguousarray(arr).ravel(), arr.shape,
+                               order="F")
+                if not np.array_equal(y, arr, equal_nan=True):
+                    info["data_variants"] += 1
+                    f = changed_key(n, dataclasses.replace(n, data=y),
+                                    "DataWrapper.data[same-memory-F-order]")
+                    if f:
+                        return f, info
+        # ---- history: a key computed before a node is re-tagged must not
+        # stick to the re-tagged node
+        from pvf.usertags import PvfTag
+        nodes_b = [n for n in reflect.topo_order(b)
+                   if dataclasses.is_dataclass(n) or isinstance(
+                       n, pt.DictOfNamedArrays)]
+        for pick in picks:
+            i = min(int(pick * len(nodes)), len(nodes) - 1)
+            n = nodes[i]
+            if not isinstance(n, pt.Array) or len(nodes_b) != len(nodes) \
+                    or isinstance(n, pt.array.DataWrapper):
+                continue
+            m = nodes_b[i]
+            if m is n or m != n:
+                continue
+            try:
+                fresh = m.tagged(PvfTag("hist"))      # never keyed before
+            except Exception:  # noqa: BLE001
+                continue          # (a class that documents it is not taggable)
+            try:
+                k_n = key_of(n)                       # keyed first ...
+                t = n.tagged(PvfTag("hist"))          # ... then tagged
+                k_t, k_fresh = key_of(t), key_of(fresh)
+                k_back = key_of(t.without_tags(PvfTag("hist")))
+            except Exception as e:  # noqa: BLE001
+                return Failure("key-exception", f"history: {type(e).__name__}:"
+                               f" {e}", exc_site(e)), info
+            info["history"] = info.get("history", 0) + 1
+            if k_t == k_n:
+                return Failure("stale-key-after-tagging",
+                               f"{type(n).__name__}: key computed, node tagged:"
+                               " the tagged node has the old key", "tagged"
+                               ), info
+            if k_t != k_fresh:
+                return Failure("key-depends-on-history",
+                               f"{type(n).__name__}: tagging a node whose key "
+                               "was computed before gives another key than "
+                               "tagging an equal, never keyed node",
+                               "tagged"), info
+            if k_back != k_n:
+                return Failure("key-depends-on-history",
+                               f"{type(n).__name__}: tag added and removed: "
+                               "key differs from the original's", "untagged"
+                               ), info
         try:
             info["blob"] = pickle.dumps(build_pt(
                 _no_data(spec)).dict_of_named_arrays())
